@@ -42,7 +42,14 @@ def gen_kitchen(r: random.Random, profile: str = "kitchen") -> Dict[str, Any]:
         pairs.append(["M0", "M1", r.choice([0.3, -0.4, 0.8])])
     if n >= 3 and r.random() < 0.5:
         pairs.append(["M1", "M2", r.choice([0.2, -0.2])])
-    if r.random() < 0.65:
+    if n >= 3 and r.random() < 0.08:
+        # an exactly singular (but positive semi-definite) structure: 0.6^2 + 0.8^2 = 1.  Refused today with a
+        # linear-algebra error - and refused the same way in every execution
+        pairs = [["M0", "M1", 0.6], ["M1", "M2", 0.8]]
+        for i in range(3):
+            w.cfg[f"M{i}"]["fundamentalVolatility"] = 0.01
+        w.cfg["simulation"]["fundamentalCorrelations"] = {"pairwise": pairs}
+    elif r.random() < 0.65:
         w.cfg["simulation"]["fundamentalCorrelations"] = {"pairwise": pairs}
     allm = comps + ["IDX"]
     w.add_scripted("SA", r.randint(1, 3), False)
